@@ -336,3 +336,51 @@ Example c03_sanse_instance_runs :
   | None => False
   end.
 Proof. split; [exact ex_in_sync|]. split; [apply key16_good; reflexivity|]. vm_compute. repeat split; reflexivity. Qed.
+
+(* ====================================================================================================== *)
+(* Composition with the handshake server/client step model (C10, Model/HsServer.v)                          *)
+(* server_step / client_step take the session-packet path as a parameter SM with the named premises         *)
+(* sm_total / sm_rejects.  Proofs/HsPacketCompose.v instantiates SM with this file's handler run on         *)
+(* Kravatte-SANSE (sm_sanse for the server, sm_sanse_client for the client; the packet-level part of the    *)
+(* session state — counter, window, queue, reader buffer, address — and the address ids are ARBITRARY,      *)
+(* universally quantified functions ext / aid) and discharges both premises.                                *)
+(* ====================================================================================================== *)
+From Hop Require HsPacketCompose.
+
+(* Server.readPacket never panics on any datagram: no premise about the packet path left *)
+Theorem c10_server_step_total_composed :
+  forall ext aid O X s I a d,
+    HsServerProofs.rand_ok s I ->
+    HsServer.so_res (HsServer.server_step O X (HsPacketCompose.sm_sanse ext aid) s I a d) <> Panic.
+Proof. exact HsPacketCompose.server_step_total_composed. Qed.
+Print Assumptions c10_server_step_total_composed.
+
+(* neither do the client's receive steps *)
+Theorem c10_client_step_total_composed :
+  forall ext aid O X st a d stale,
+    snd (HsServer.client_step O X (HsPacketCompose.sm_sanse_client ext aid) st a d stale) <> Panic.
+Proof. exact HsPacketCompose.client_step_total_composed. Qed.
+Print Assumptions c10_client_step_total_composed.
+
+(* a datagram that authenticates under no session (for every session, in whatever packet-level state, it
+   fails a header check, the replay check or SANSE's tag check, or the session is closed) leaves the server
+   state exactly unchanged unless it is one of the three handshake messages C10 lists *)
+Theorem c10_junk_leaves_state_composed :
+  forall ext aid O X s I a d,
+    HsPacketCompose.unauthentic ext d ->
+    let o := HsServer.server_step O X (HsPacketCompose.sm_sanse ext aid) s I a d in
+    HsServer.so_srv o = s \/
+    (Handshake.at_ d 0 = Handshake.MT_ClientAck /\
+     exists n k, Handshake.read_client_ack O X (HsServer.sv_ck s) (fst a) (snd a) d = Ok (n, k)) \/
+    (Handshake.at_ d 0 = Handshake.MT_ClientAuth /\ exists h, HsServer.find_hs a (HsServer.sv_hs s) = Some h) \/
+    (Handshake.at_ d 0 = Handshake.MT_ClientRequestHidden /\
+     exists T q, Handshake.read_request_hidden O X (HsServer.i_certs I) (HsServer.sv_pol s) (HsServer.i_now I) [] d = (T, Ok q)).
+Proof. exact HsPacketCompose.server_step_junk_leaves_state_composed. Qed.
+Print Assumptions c10_junk_leaves_state_composed.
+
+(* the premise is satisfiable: every datagram shorter than 48 bytes is unauthentic, for every ext *)
+Example c10_unauthentic_nonvacuous : forall ext d, len d < 48 -> HsPacketCompose.unauthentic ext d.
+Proof.
+  intros ext d H x. unfold opens. destruct (closed _); [reflexivity|].
+  unfold wf_header. replace (48 <=? len d) with false by (symmetry; apply N.leb_gt; exact H). reflexivity.
+Qed.
